@@ -1,57 +1,781 @@
-// C04 harness (exploration stage).
+// C04 harness: forwarding fidelity and gateway-terminated answers.
+//
+// Streams
+//
+//	url      pure: the request target through the real net/url parse, the dispatcher's five location lines (copied — the e2e
+//	         stream runs the real ones), the real proxy.NewUpgradeAwareHandler (normalizeLocation), the real director of
+//	         reverseproxy.NewSingleHostReverseProxy and URL.RequestURI(), against KG.Model.Forward.targetPipeline;
+//	forward  end to end: raw HTTP/1.1 request -> real gateway handler chain (buildProxyHandlerChainFunc through an overlay
+//	         shim) -> real ClusterInfo/transport -> scripted raw upstream, and back; both observations are compared with the
+//	         model (diff) and judged by KG.Spec.Forward (judge);
+//	term     every row of the decision table of gateway-terminated answers, triggered on the real chain;
+//	upgrade  one SPDY-style upgrade round trip (partial: nothing is proved about tunnels).
 package main
 
 import (
+	"bufio"
 	"encoding/json"
 	"fmt"
+	"net/http"
+	"net/url"
 	"os"
+	"path/filepath"
+	"sort"
+	"strconv"
+	"strings"
+	"time"
+	"unicode/utf8"
 
+	metav1 "k8s.io/apimachinery/pkg/apis/meta/v1"
+	"k8s.io/apimachinery/pkg/runtime"
+	"k8s.io/apimachinery/pkg/util/proxy"
+	"k8s.io/client-go/kubernetes/scheme"
+
+	"github.com/kubewharf/kubegateway/pkg/util/reverseproxy"
+
+	"verifharness/e2e"
 	"verifharness/rig"
 )
 
-func explore(w *world) {
-	mk := func(method, target, host string, hs []H, up UpSpec) Case {
-		return Case{Kind: "forward", Req: ReqSpec{Method: rig.Hex(method), Target: rig.Hex(target), Host: rig.Hex(host), Headers: hs, Token: tokenAlice}, Up: up}
+// failures are recorded once per class (a known finding must not crowd out, or stop, the rest of the run)
+var recorded = map[string]int{}
+var lastClass string
+
+func rec(c *rig.Ctx, f rig.Failure) {
+	lastClass = f.Class
+	recorded[f.Class]++
+	if recorded[f.Class] > 1 {
+		c.Count("repeat:" + f.Class)
+		return
 	}
-	cases := []Case{
-		mk("GET", "/api/v1/namespaces/x/pods?b=2&a=1&a=0&bad=%zz&c;d=1&e", clOK, []H{hx("Connection", "x-foo, keep-alive"), hx("X-Foo", "1"), hx("Te", "trailers, gzip"), hx("x-bar", "a"), hx("X-Bar", "b"), hx("X-Forwarded-For", "1.2.3.4"), hx("X-Forwarded-For", "5.6.7.8")},
-			UpSpec{Status: 201, Headers: []H{hx("Connection", "x-up"), hx("X-Up", "gone"), hx("Keep-Alive", "timeout=5"), hx("X-Dup", "1"), hx("X-Dup", "2"), hx("Cache-Control", "max-age=1")}, BodyLen: 10, BodySeed: 1}),
-		mk("POST", "/a%2Fb/c%20d//e;p=1/%ff%00\"<>?", clOK, nil, UpSpec{Status: 404, BodyLen: 5000, BodySeed: 2, Chunked: true}),
-		mk("GET", "/x", clCloseIdle, nil, UpSpec{Status: 200}),
-		mk("GET", "/x", clUnknown, nil, UpSpec{Status: 200}),
-		mk("GET", "/x", clDeny, nil, UpSpec{Status: 200}),
-		mk("GET", "/x", clNoPolicy, nil, UpSpec{Status: 200}),
-		mk("GET", "/x", clNoReady, nil, UpSpec{Status: 200}),
-		mk("GET", "/x", clDisabled, nil, UpSpec{Status: 200}),
-		mk("GET", "/x", clEmpty, nil, UpSpec{Status: 200}),
-		mk("GET", "/x", clDown, nil, UpSpec{Status: 200}),
-		mk("GET", "/x", "127.0.0.1", nil, UpSpec{Status: 200}),
-		mk("GET", "/x", clOK, []H{hx("Impersonate-Group", "g")}, UpSpec{Status: 200}),
-		mk("GET", "/x", clOK, []H{hx("Impersonate-User", "bob")}, UpSpec{Status: 200}),
+	c.Fail(f)
+}
+
+// seenClass reports whether a failure of the class the last (unrecorded) run ended with is already on record.
+func seenClass() bool { return recorded[lastClass] > 0 }
+
+// ------------------------------------------------------------------------------------------------------------
+// pure URL stream
+
+type urlModel struct {
+	Out         *string     `json:"out"`
+	Path        *string     `json:"path"`
+	RawPath     *string     `json:"rawPath"`
+	Valid       bool        `json:"valid"`
+	Query       string      `json:"query"`
+	Pairs       [][2]string `json:"pairs"`
+	PathExact   bool        `json:"pathExact"`
+	PathDecoded bool        `json:"pathDecoded"`
+	PathNorm    bool        `json:"pathNorm"`
+	QueryOK     bool        `json:"queryOK"`
+}
+
+type urlImpl struct {
+	Out     *string `json:"out"`
+	Path    *string `json:"path"`
+	RawPath *string `json:"rawPath"`
+	Query   string  `json:"query"`
+}
+
+// implURL runs the real URL code on a request target. ok=false: net/http's server refuses the target.
+func implURL(target string) urlImpl {
+	var o urlImpl
+	if strings.IndexFunc(target, func(r rune) bool { return r < 0x20 || r == 0x7f }) >= 0 || strings.Contains(target, " ") {
+		return o // cannot appear in a request line that reaches a handler
 	}
-	cases[1].Req.HasBody = true
-	cases[1].Req.BodyLen = 3000
-	cases[1].Req.Chunked = true
-	eve := mk("GET", "/x", clOK, []H{hx("Impersonate-User", "bob")}, UpSpec{Status: 200})
-	eve.Req.Token = tokenEve
-	noauth := mk("GET", "/x", clOK, nil, UpSpec{Status: 200})
-	noauth.Req.Token = "nope"
-	cases = append(cases, eve, noauth)
-	for i, cs := range cases {
-		o := w.roundTrip(cs, fmt.Sprintf("x%d", i), &script{up: cs.Up})
-		fmt.Printf("---- %s %s host=%s\n", rig.UnHex(cs.Req.Method), rig.UnHex(cs.Req.Target), rig.UnHex(cs.Req.Host))
-		fmt.Printf("nUp=%d err=%q bodyErr=%q\n", o.NUp, o.Err, o.BodyErr)
-		if o.Up != nil {
-			fmt.Printf("UP  target=%s host=%s body=%s\n    raw=%v\n", rig.UnHex(o.Up.Target), rig.UnHex(o.Up.Host), rig.UnHex(o.Up.Body), o.RawUp)
+	u, err := url.ParseRequestURI(target) // net/http server, readRequest
+	if err != nil {
+		return o
+	}
+	p, rp := rig.Hex(u.Path), rig.Hex(u.RawPath)
+	o.Path, o.RawPath = &p, &rp
+	// dispatcher.ServeHTTP, copied (the forward stream runs the real lines)
+	location := &url.URL{}
+	location.Scheme = "http"
+	location.Host = "127.0.0.1:1"
+	location.Path = u.Path
+	location.RawPath = u.RawPath
+	location.RawQuery = u.Query().Encode()
+	o.Query = rig.Hex(location.RawQuery)
+	// real: NewUpgradeAwareHandler -> normalizeLocation
+	h := proxy.NewUpgradeAwareHandler(location, nil, false, false, nil)
+	// UpgradeAwareHandler.ServeHTTP (upgradeaware.go), the lines before the reverse proxy, with req.URL = location
+	loc := *h.Location
+	loc.RawQuery = location.RawQuery
+	if !strings.HasSuffix(loc.Path, "/") && strings.HasSuffix(location.Path, "/") {
+		loc.Path += "/"
+	}
+	// real: the director of the vendored reverse proxy
+	rpx := reverseproxy.NewSingleHostReverseProxy(&url.URL{Scheme: h.Location.Scheme, Host: h.Location.Host})
+	out := &http.Request{URL: &loc, Header: http.Header{}}
+	rpx.Director(out)
+	s := rig.Hex(out.URL.RequestURI())
+	o.Out = &s
+	return o
+}
+
+func runURL(c *rig.Ctx, target string, record bool) bool {
+	var impl urlImpl
+	msg, panicked := rig.Recover(func() { impl = implURL(target) })
+	cs := map[string]string{"kind": "url", "target": rig.Hex(target)}
+	if panicked {
+		if record {
+			rec(c, rig.Failure{Kind: "judge", Class: "c04.panic", What: "URL code panicked: " + msg, Case: cs})
 		}
-		if o.RawResp != nil {
-			b := o.RawResp.Body
-			if len(b) > 300 {
-				b = b[:300]
+		return false
+	}
+	var m urlModel
+	if err := c.Model("C04.url", map[string]string{"target": rig.Hex(target)}, &m); err != nil {
+		rec(c, rig.Failure{Kind: "diff", Class: "c04.model-error", What: err.Error(), Case: cs})
+		return false
+	}
+	fail := func(kind, class, what string) bool {
+		lastClass = class
+		if record {
+			rec(c, rig.Failure{Kind: kind, Class: class, What: what + fmt.Sprintf(" (target %q)", target), Case: cs, Impl: impl, Model: m})
+		}
+		return false
+	}
+	if impl.Out == nil {
+		if m.Out != nil && validTargetBytes(target) {
+			return fail("diff", "c04.url.accept", "the model accepts a target net/url refuses")
+		}
+		return true
+	}
+	// judges on the implementation's output, evaluated by the Lean judges through a second model call on (target, out)
+	var j urlModel
+	_ = j
+	if m.Out == nil {
+		return fail("diff", "c04.url.accept", "net/url accepts a target the model refuses")
+	}
+	if *impl.Out != *m.Out || deref(impl.Path) != deref(m.Path) || deref(impl.RawPath) != deref(m.RawPath) || impl.Query != m.Query {
+		return fail("diff", "c04.url.out", fmt.Sprintf("model %q, code %q", rig.UnHex(deref(m.Out)), rig.UnHex(*impl.Out)))
+	}
+	// model output == code output here, so the model-side verdicts are the verdicts on the code's output
+	if !m.PathDecoded {
+		return fail("judge", "c04.path.decoded", "the upstream path decodes to a different path")
+	}
+	if !m.PathExact {
+		return fail("judge", "c04.path.exact", "a valid escaped path is not forwarded byte for byte")
+	}
+	if !m.QueryOK {
+		return fail("judge", "c04.query", "the forwarded query parses to a different multimap")
+	}
+	if !m.PathNorm {
+		return fail("judge", "c04.path.invalid-raw-byte-reencoded", fmt.Sprintf("the path has a byte net/url does not accept raw and is re-encoded from its decoded form (reserved bytes change between raw and escaped): upstream gets %q", rig.UnHex(*impl.Out)))
+	}
+	return true
+}
+
+func deref(s *string) string {
+	if s == nil {
+		return "<nil>"
+	}
+	return *s
+}
+
+func validTargetBytes(t string) bool {
+	for i := 0; i < len(t); i++ {
+		if t[i] < 0x20 || t[i] == 0x7f || t[i] == ' ' {
+			return false
+		}
+	}
+	return strings.HasPrefix(t, "/")
+}
+
+// ------------------------------------------------------------------------------------------------------------
+// forward stream
+
+type modelReq struct {
+	Method string `json:"method"`
+	Target string `json:"target"`
+	Host   string `json:"host"`
+	Lines  []H    `json:"lines"`
+	Body   string `json:"body"`
+	IP     string `json:"ip"`
+}
+type modelUp struct {
+	Status int    `json:"status"`
+	Lines  []H    `json:"lines"`
+	Body   string `json:"body"`
+}
+
+func (w *world) modelArgs(cs Case, id string) map[string]interface{} {
+	lines := append([]H{hx(caseHeader, id)}, cs.Req.Headers...)
+	if cs.Req.Token != "" {
+		lines = append(lines, hx("Authorization", "Bearer "+cs.Req.Token))
+	}
+	upBody := body(cs.Up.BodySeed, cs.Up.BodyLen)
+	if rig.UnHex(cs.Req.Method) == "HEAD" || noBodyStatus(cs.Up.Status) {
+		upBody = []byte{}
+	}
+	host := strings.ToLower(rig.UnHex(cs.Req.Host))
+	return map[string]interface{}{
+		"req": modelReq{Method: cs.Req.Method, Target: cs.Req.Target, Host: cs.Req.Host, Lines: lines,
+			Body: rig.Hex(tag(cs.Req.bodyBytes())), IP: rig.Hex("127.0.0.1")},
+		"closeIdle": strings.HasPrefix(host, clCloseIdle),
+		"up":        modelUp{Status: cs.Up.Status, Lines: orEmpty(cs.Up.Headers), Body: rig.Hex(tag(upBody))},
+	}
+}
+
+func orEmpty(h []H) []H {
+	if h == nil {
+		return []H{}
+	}
+	return h
+}
+
+type reqVerdict struct{ Method, Host, Body, PathExact, PathDecoded, PathNorm, Query, Headers bool }
+type respVerdict struct{ Status, Body, Headers bool }
+
+type forwardModel struct {
+	Accepted    bool        `json:"accepted"`
+	Upgrade     bool        `json:"upgrade"`
+	Up          *SeenUp     `json:"up"`
+	Client      *SeenClient `json:"client"`
+	ReqVerdict  reqVerdict  `json:"reqVerdict"`
+	RespVerdict respVerdict `json:"respVerdict"`
+}
+
+func sortHV(l []HV) {
+	sort.Slice(l, func(i, j int) bool { return rig.UnHex(l[i].Name) < rig.UnHex(l[j].Name) })
+}
+
+func nextID() string { caseSeq++; return fmt.Sprintf("c%d", caseSeq) }
+
+func runForward(c *rig.Ctx, w *world, cs Case, record bool) bool {
+	id := nextID()
+	args := w.modelArgs(cs, id)
+	var m forwardModel
+	if err := c.Model("C04.forward", args, &m); err != nil {
+		rec(c, rig.Failure{Kind: "diff", Class: "c04.model-error", What: err.Error(), Case: cs})
+		return false
+	}
+	o := w.roundTrip(cs, id, &script{up: cs.Up})
+	if o.Err != "" {
+		// one retry on a fresh connection: a refused dial must not become a verdict
+		id = nextID()
+		args = w.modelArgs(cs, id)
+		_ = c.Model("C04.forward", args, &m)
+		o = w.roundTrip(cs, id, &script{up: cs.Up})
+	}
+	fail := func(kind, class, what string) bool {
+		lastClass = class
+		if record {
+			rec(c, rig.Failure{Kind: kind, Class: class, What: what + " [" + describe(cs) + "]", Case: cs, Impl: o, Model: m})
+		}
+		return false
+	}
+	if !m.Accepted || m.Upgrade {
+		return fail("diff", "c04.forward.generator", "the generator produced a target the model's server refuses, or an upgrade request")
+	}
+	if o.Err != "" {
+		return fail("judge", noAnswerClass(cs), "the gateway did not answer: "+o.Err)
+	}
+	if o.NUp != 1 {
+		return fail("judge", "c04.forward.count", fmt.Sprintf("the request reached an upstream %d times (gateway answered %d)", o.NUp, o.Client.Status))
+	}
+	if o.BodyErr != "" {
+		return fail("judge", "c04.body-error", "a body could not be read to its end: "+o.BodyErr)
+	}
+	args["seenUp"] = o.Up
+	args["seenClient"] = o.Client
+	var v struct {
+		Req  reqVerdict  `json:"req"`
+		Resp respVerdict `json:"resp"`
+	}
+	if err := c.Model("C04.judge", args, &v); err != nil {
+		rec(c, rig.Failure{Kind: "diff", Class: "c04.model-error", What: err.Error(), Case: cs})
+		return false
+	}
+	upT, _ := rig.UnHex(o.Up.Target), 0
+	type chk struct {
+		ok    bool
+		class string
+		what  string
+	}
+	for _, k := range []chk{
+		{v.Req.Method, "c04.req.method", "the upstream saw method " + rig.UnHex(o.Up.Method)},
+		{v.Req.Host, "c04.req.host", "the upstream saw Host " + rig.UnHex(o.Up.Host)},
+		{v.Req.Body, "c04.req.body", "the upstream received a different body: " + rig.UnHex(o.Up.Body)},
+		{v.Req.PathDecoded, "c04.path.decoded", "the upstream path decodes to a different path: " + strconv.Quote(upT)},
+		{v.Req.PathExact, "c04.path.exact", "a valid escaped path is not forwarded byte for byte: " + strconv.Quote(upT)},
+		{v.Req.Query, "c04.query", "the forwarded query parses to a different multimap: " + strconv.Quote(upT)},
+		{v.Req.Headers, "c04.req.headers", "end-to-end request headers differ / hop-by-hop headers forwarded / X-Forwarded-For wrong: " + fmt.Sprint(o.RawUp)},
+		{v.Resp.Status, "c04.resp.status", fmt.Sprintf("the client got status %d, the upstream sent %d", o.Client.Status, cs.Up.Status)},
+		{v.Resp.Body, "c04.resp.body", "the client received a different body: " + rig.UnHex(o.Client.Body)},
+		{v.Resp.Headers, "c04.resp.headers", "response headers differ: " + fmt.Sprint(o.RawResp.Header)},
+		{v.Req.PathNorm, "c04.path.invalid-raw-byte-reencoded", "the path has a byte net/url does not accept raw and is re-encoded from its decoded form (reserved bytes change between raw and escaped): upstream gets " + strconv.Quote(upT)},
+	} {
+		if !k.ok {
+			return fail("judge", k.class, k.what)
+		}
+	}
+	sortHV(m.Up.Headers)
+	sortHV(m.Client.Headers)
+	if rig.Canon(m.Up) != rig.Canon(o.Up) {
+		return fail("diff", "c04.diff.up", "model and code disagree on the upstream request")
+	}
+	if rig.Canon(m.Client) != rig.Canon(o.Client) {
+		return fail("diff", "c04.diff.client", "model and code disagree on the client response")
+	}
+	return true
+}
+
+// noAnswerClass separates the one structural cause seen so far: a decoded path that is not valid UTF-8.
+func noAnswerClass(cs Case) string {
+	t := rig.UnHex(cs.Req.Target)
+	if i := strings.IndexByte(t, '?'); i >= 0 {
+		t = t[:i]
+	}
+	if p, err := url.PathUnescape(t); err == nil && !utf8.ValidString(p) {
+		return "c04.no-answer.non-utf8-path"
+	}
+	return "c04.no-answer"
+}
+
+func describe(cs Case) string {
+	hs := []string{}
+	for _, h := range cs.Req.Headers {
+		hs = append(hs, h.name()+": "+h.value())
+	}
+	us := []string{}
+	for _, h := range cs.Up.Headers {
+		us = append(us, h.name()+": "+h.value())
+	}
+	return fmt.Sprintf("%s %q Host=%s headers=%q body=%d/%v row=%s -> upstream %d headers=%q body=%d", rig.UnHex(cs.Req.Method), rig.UnHex(cs.Req.Target),
+		rig.UnHex(cs.Req.Host), hs, cs.Req.BodyLen, cs.Req.HasBody, cs.Row, cs.Up.Status, us, cs.Up.BodyLen)
+}
+
+func shrinkCase(cs Case, fails func(Case) bool) Case {
+	try := func(mut func(*Case)) {
+		x := cs
+		x.Req.Headers = append([]H{}, cs.Req.Headers...)
+		x.Up.Headers = append([]H{}, cs.Up.Headers...)
+		mut(&x)
+		if fails(x) {
+			cs = x
+		}
+	}
+	cs.Req.Headers = rig.ShrinkList(cs.Req.Headers, func(l []H) bool { x := cs; x.Req.Headers = l; return fails(x) })
+	cs.Up.Headers = rig.ShrinkList(cs.Up.Headers, func(l []H) bool { x := cs; x.Up.Headers = l; return fails(x) })
+	try(func(x *Case) { x.Req.HasBody, x.Req.BodyLen, x.Req.Chunked = false, 0, false })
+	try(func(x *Case) { x.Req.BodyLen = 1 })
+	try(func(x *Case) { x.Up.BodyLen, x.Up.Chunked, x.Up.NoLength = 0, false, false })
+	try(func(x *Case) { x.Up.BodyLen = 1 })
+	try(func(x *Case) { x.Up.Status = 200 })
+	try(func(x *Case) { x.Req.Method = rig.Hex("GET") })
+	t := rig.UnHex(cs.Req.Target)
+	if i := strings.IndexByte(t, '?'); i >= 0 {
+		try(func(x *Case) { x.Req.Target = rig.Hex(t[:i]) })
+		try(func(x *Case) { x.Req.Target = rig.Hex("/x" + t[i:]) })
+	}
+	// drop path segments
+	for changed := true; changed; {
+		changed = false
+		t = rig.UnHex(cs.Req.Target)
+		p, q := t, ""
+		if i := strings.IndexByte(t, '?'); i >= 0 {
+			p, q = t[:i], t[i:]
+		}
+		segs := strings.Split(p, "/")
+		for i := 1; i < len(segs) && len(segs) > 2; i++ {
+			cand := strings.Join(append(append([]string{}, segs[:i]...), segs[i+1:]...), "/") + q
+			x := cs
+			x.Req.Target = rig.Hex(cand)
+			if fails(x) {
+				cs = x
+				changed = true
+				break
 			}
-			fmt.Printf("CL  status=%d hdr=%v te=%v\n    body=%q\n", o.RawResp.StatusCode, o.RawResp.Header, o.RawResp.TransferEncoding, b)
 		}
 	}
+	return cs
+}
+
+// ------------------------------------------------------------------------------------------------------------
+// terminated answers
+
+type scenario struct {
+	HostIsIP      bool   `json:"hostIsIP"`
+	ClusterKnown  bool   `json:"clusterKnown"`
+	DenyAll       bool   `json:"denyAll"`
+	AuthOK        bool   `json:"authOK"`
+	Imp           string `json:"imp"`
+	PolicyMatches bool   `json:"policyMatches"`
+	AcquireOK     bool   `json:"acquireOK"`
+	Resource      string `json:"resource"`
+	PopOK         bool   `json:"popOK"`
+}
+
+var termRows = []string{"unknown-host", "deny-all", "unauthenticated", "no-token", "imp-refused", "imp-malformed", "no-policy",
+	"inflight", "inflight-events", "bucket", "no-ready", "disabled", "empty-subset", "ip-host", "down", "unknown-host-noauth", "deny-all-noauth"}
+
+// rowSetup turns a request into the one that triggers the row, and gives the scenario the model is asked about.
+// resourceOf asks the real RequestInfo resolver which resource a request addresses ("" for non-resource requests).
+func resourceOf(method, target string) string {
+	u, err := url.ParseRequestURI(target)
+	if err != nil {
+		return ""
+	}
+	info, err := e2e.GenericConfig(nil, nil).RequestInfoResolver.NewRequestInfo(&http.Request{Method: method, URL: u})
+	if err != nil || !info.IsResourceRequest {
+		return ""
+	}
+	return info.Resource
+}
+
+func rowSetup(row string, cs *Case) (s scenario) {
+	s = scenario{ClusterKnown: true, AuthOK: true, Imp: "none", PolicyMatches: true, AcquireOK: true, PopOK: true, Resource: rig.Hex("pods")}
+	setHost := func(h string) { cs.Req.Host = rig.Hex(h) }
+	dropImp := func() {
+		var hs []H
+		for _, h := range cs.Req.Headers {
+			if !strings.HasPrefix(strings.ToLower(h.name()), "impersonate-") {
+				hs = append(hs, h)
+			}
+		}
+		cs.Req.Headers = hs
+	}
+	dropImp()
+	cs.Req.Token = tokenAlice
+	if rig.UnHex(cs.Req.Method) == "HEAD" {
+		cs.Req.Method = rig.Hex("GET") // the answer to HEAD has no body to carry a Status
+	}
+	defer func() { s.Resource = rig.Hex(resourceOf(rig.UnHex(cs.Req.Method), rig.UnHex(cs.Req.Target))) }()
+	switch row {
+	case "unknown-host":
+		setHost(clUnknown)
+		s.ClusterKnown = false
+	case "unknown-host-noauth": // decided before authentication
+		setHost(clUnknown)
+		cs.Req.Token = ""
+		s.ClusterKnown, s.AuthOK = false, false
+	case "deny-all":
+		setHost(clDeny)
+		s.DenyAll = true
+	case "deny-all-noauth":
+		setHost(clDeny)
+		cs.Req.Token = "wrong"
+		s.DenyAll, s.AuthOK = true, false
+	case "unauthenticated":
+		setHost(clOK)
+		cs.Req.Token = "wrong"
+		s.AuthOK = false
+	case "no-token":
+		setHost(clOK)
+		cs.Req.Token = ""
+		s.AuthOK = false
+	case "imp-refused":
+		setHost(clOK)
+		cs.Req.Token = tokenEve
+		cs.Req.Headers = append(cs.Req.Headers, hx("Impersonate-User", "bob"))
+		s.Imp = "refused"
+	case "imp-malformed":
+		setHost(clOK)
+		cs.Req.Headers = append(cs.Req.Headers, hx("Impersonate-Group", "dev"))
+		s.Imp = "malformed"
+	case "no-policy":
+		setHost(clNoPolicy)
+		cs.Req.Method = rig.Hex("DELETE") // the only policy matches `get pods`
+		s.PolicyMatches = false
+	case "inflight":
+		setHost(clInflight)
+		s.AcquireOK = false
+	case "inflight-events":
+		setHost(clInflight)
+		cs.Req.Method = rig.Hex("POST")
+		cs.Req.Target = rig.Hex("/api/v1/namespaces/x/events")
+		s.AcquireOK = false
+	case "bucket":
+		setHost(clBucket)
+		s.AcquireOK = false
+	case "no-ready":
+		setHost(clNoReady)
+		s.PopOK = false
+	case "disabled":
+		setHost(clDisabled)
+		s.PopOK = false
+	case "empty-subset":
+		setHost(clEmpty)
+		s.PopOK = false
+	case "ip-host":
+		setHost("127.0.0.1:6443")
+		s.HostIsIP = true
+	case "down":
+		setHost(clDown)
+	}
+	return s
+}
+
+type termObs struct {
+	HTTPCode         int    `json:"httpCode"`
+	RetryAfter       int    `json:"retryAfter"` // -1 absent, -2 not a number
+	IsStatus         bool   `json:"isStatus"`
+	Kind             string `json:"kind"`
+	APIVersion       string `json:"apiVersion"`
+	Status           string `json:"status"`
+	Reason           string `json:"reason"`
+	Code             int    `json:"code"`
+	UpstreamRequests int64  `json:"upstreamRequests"`
+	UpstreamBytes    int64  `json:"upstreamBytes"`
+	ContentType      string `json:"contentType"`
+	BodyHead         string `json:"bodyHead"`
+	NotProxied       bool   `json:"notProxied"`
+}
+
+func decodeStatus(ct string, b []byte) (*metav1.Status, bool) {
+	obj, _, err := scheme.Codecs.UniversalDeserializer().Decode(b, nil, nil)
+	if err != nil {
+		// YAML is not recognised by the universal deserializer's sniffing in every version: try the negotiated serializer
+		for _, info := range scheme.Codecs.SupportedMediaTypes() {
+			if strings.HasPrefix(ct, info.MediaType) {
+				if o, _, e := info.Serializer.Decode(b, nil, nil); e == nil {
+					obj, err = o, nil
+				}
+			}
+		}
+		if err != nil {
+			return nil, false
+		}
+	}
+	st, ok := obj.(*metav1.Status)
+	return st, ok
+}
+
+var _ runtime.Object = &metav1.Status{}
+
+type termModel struct {
+	Outcome struct {
+		Kind       string `json:"kind"`
+		Code       int    `json:"code"`
+		RetryAfter int    `json:"retryAfter"`
+		Reason     string `json:"reason"`
+	} `json:"outcome"`
+	Table      json.RawMessage `json:"table"`
+	WellFormed bool            `json:"wellFormed"`
+	MatchesRow bool            `json:"matchesRow"`
+}
+
+// holdOne occupies the single in-flight slot of clInflight (or drains the bucket of clBucket) with a helper request and
+// returns a release function. ok=false: the slot could not be taken (reported as a harness problem, never as a verdict).
+func (w *world) holdOne(host string, block bool) (release func(), ok bool) {
+	helper := Case{Kind: "forward", Req: ReqSpec{Method: rig.Hex("GET"), Target: rig.Hex("/api/v1/namespaces/x/pods"), Host: rig.Hex(host), Token: tokenAlice}, Up: UpSpec{Status: 200}}
+	deadline := time.Now().Add(15 * time.Second)
+	for time.Now().Before(deadline) {
+		id := nextID()
+		sc := &script{up: helper.Up, got: make(chan struct{})}
+		if block {
+			sc.wait = make(chan struct{})
+		}
+		done := make(chan Obs, 1)
+		go func() { done <- w.roundTrip(helper, id, sc) }()
+		select {
+		case <-sc.got:
+			if !block {
+				<-done
+				return func() {}, true
+			}
+			return func() { close(sc.wait); <-done }, true
+		case o := <-done:
+			// answered without reaching the upstream: the previous holder has not released yet (429); retry
+			_ = o
+			time.Sleep(5 * time.Millisecond)
+		}
+	}
+	return nil, false
+}
+
+func runTerm(c *rig.Ctx, w *world, cs Case, record bool) bool {
+	sc := rowSetup(cs.Row, &cs)
+	fail := func(kind, class, what string, impl, model interface{}) bool {
+		lastClass = class
+		if record {
+			rec(c, rig.Failure{Kind: kind, Class: class, What: what + " [" + describe(cs) + "]", Case: cs, Impl: impl, Model: model})
+		}
+		return false
+	}
+	release := func() {}
+	switch cs.Row {
+	case "inflight", "inflight-events":
+		r, ok := w.holdOne(clInflight, true)
+		if !ok {
+			c.Note("harness: could not occupy the in-flight slot; case skipped")
+			return true
+		}
+		release = r
+	case "bucket":
+		if _, ok := w.holdOne(clBucket, false); !ok {
+			c.Note("harness: could not drain the token bucket; case skipped")
+			return true
+		}
+	}
+	id := nextID()
+	r0, b0 := w.totals()
+	o := w.roundTrip(cs, id, &script{up: cs.Up})
+	time.Sleep(time.Millisecond) // one-sided: a late partial write would only be missed, never invented
+	r1, b1 := w.totals()
+	release()
+	if o.Err != "" {
+		return fail("judge", noAnswerClass(cs), "the gateway did not answer: "+o.Err, o, nil)
+	}
+	resp := o.RawResp
+	obs := termObs{HTTPCode: resp.StatusCode, RetryAfter: -1, UpstreamRequests: r1 - r0, UpstreamBytes: b1 - b0,
+		ContentType: resp.Header.Get("Content-Type"), NotProxied: resp.Header.Get("X-E2e-Not-Proxied") == "1"}
+	if o.NUp > 0 && obs.UpstreamRequests == 0 {
+		obs.UpstreamRequests = int64(o.NUp)
+	}
+	if v, ok := resp.Header["Retry-After"]; ok {
+		n, err := strconv.Atoi(v[0])
+		if err != nil || len(v) != 1 {
+			n = -2
+		}
+		obs.RetryAfter = n
+	}
+	head := resp.Body
+	if len(head) > 200 {
+		head = head[:200]
+	}
+	obs.BodyHead = string(head)
+	if st, ok := decodeStatus(obs.ContentType, resp.Body); ok {
+		obs.IsStatus = true
+		obs.Kind, obs.APIVersion, obs.Status, obs.Reason, obs.Code = rig.Hex(st.Kind), rig.Hex(st.APIVersion), rig.Hex(st.Status), rig.Hex(string(st.Reason)), int(st.Code)
+		if st.Kind == "" { // protobuf / typed decode drops TypeMeta: the object IS a v1 Status
+			obs.Kind, obs.APIVersion = rig.Hex("Status"), rig.Hex("v1")
+		}
+	}
+	if cs.Row == "bucket" && obs.UpstreamRequests == 1 && resp.StatusCode == cs.Up.Status {
+		// more than a second passed between the two requests and the bucket refilled: admitted, which is correct
+		c.Count("term:bucket-refilled")
+		return true
+	}
+	var m termModel
+	if err := c.Model("C04.judgeTerm", map[string]interface{}{"scenario": sc, "obs": obs}, &m); err != nil {
+		rec(c, rig.Failure{Kind: "diff", Class: "c04.model-error", What: err.Error(), Case: cs})
+		return false
+	}
+	switch m.Outcome.Kind {
+	case "notProxied":
+		if !obs.NotProxied {
+			return fail("diff", "c04.term.not-proxied", "an IP-literal Host was not handed to the control-plane handler", obs, m)
+		}
+		if obs.UpstreamRequests != 0 || obs.UpstreamBytes != 0 {
+			return fail("judge", "c04.term.forwarded", "a request that is not proxied reached an upstream", obs, m)
+		}
+		return true
+	case "forward":
+		if cs.Row != "down" {
+			return fail("diff", "c04.term.generator", "the row is a forward row", obs, m)
+		}
+		// forwarding was attempted and failed (nothing listens): the answer must still be a well-formed Status
+		if !m.WellFormed || obs.HTTPCode != 502 {
+			return fail("judge", "c04.term.proxy-error-not-status", fmt.Sprintf("a failed forward is answered with %d %q", obs.HTTPCode, obs.BodyHead), obs, m)
+		}
+		return true
+	case "plain":
+		// the model mirrors the code: responsewriters.InternalError writes text/plain. The property demands a Status.
+		if obs.UpstreamRequests != 0 || obs.UpstreamBytes != 0 {
+			return fail("judge", "c04.term.forwarded", "a terminated request reached an upstream", obs, m)
+		}
+		if obs.HTTPCode != m.Outcome.Code {
+			return fail("diff", "c04.term.code", fmt.Sprintf("model %d, code %d", m.Outcome.Code, obs.HTTPCode), obs, m)
+		}
+		if !m.WellFormed {
+			return fail("judge", "c04.term.not-a-status", fmt.Sprintf("gateway-terminated answer %d is not an API Status: Content-Type %q body %q", obs.HTTPCode, obs.ContentType, obs.BodyHead), obs, m)
+		}
+		return fail("diff", "c04.term.plain", "the model says text/plain, the code answered a Status", obs, m)
+	}
+	// terminated
+	if obs.UpstreamRequests != 0 || obs.UpstreamBytes != 0 {
+		return fail("judge", "c04.term.forwarded", fmt.Sprintf("a terminated request reached an upstream (%d request heads, %d bytes)", obs.UpstreamRequests, obs.UpstreamBytes), obs, m)
+	}
+	if !m.WellFormed {
+		return fail("judge", "c04.term.not-a-status", fmt.Sprintf("gateway-terminated answer %d is not a well-formed API Status whose code is the HTTP code: Content-Type %q body %q", obs.HTTPCode, obs.ContentType, obs.BodyHead), obs, m)
+	}
+	if !m.MatchesRow {
+		return fail("judge", "c04.term.row", fmt.Sprintf("row %s: the decision table says %d Retry-After=%d reason %s, the gateway answered %d Retry-After=%d reason %s", cs.Row,
+			m.Outcome.Code, m.Outcome.RetryAfter, rig.UnHex(m.Outcome.Reason), obs.HTTPCode, obs.RetryAfter, rig.UnHex(obs.Reason)), obs, m)
+	}
+	return true
+}
+
+// ------------------------------------------------------------------------------------------------------------
+// upgrade: one round trip
+
+func runUpgrade(c *rig.Ctx, w *world, cs Case, record bool) bool {
+	id := nextID()
+	cs.Up.Upgrade = true
+	w.setScript(id, &script{up: cs.Up})
+	fail := func(what string, impl interface{}) bool {
+		lastClass = "c04.upgrade"
+		if record {
+			rec(c, rig.Failure{Kind: "judge", Class: "c04.upgrade", What: what, Case: cs, Impl: impl})
+		}
+		return false
+	}
+	conn, err := w.gw.Dial(10 * time.Second)
+	if err != nil {
+		return fail("dial: "+err.Error(), nil)
+	}
+	defer conn.Close()
+	target := rig.UnHex(cs.Req.Target)
+	fmt.Fprintf(conn, "GET %s HTTP/1.1\r\nHost: %s\r\n%s: %s\r\nConnection: Upgrade\r\nUpgrade: SPDY/3.1\r\nX-Stream-Protocol-Version: v4.channel.k8s.io\r\nX-Forwarded-For: 1.2.3.4\r\nAuthorization: Bearer %s\r\n\r\n",
+		target, clOK, caseHeader, id, tokenAlice)
+	br := bufio.NewReader(conn)
+	resp, err := http.ReadResponse(br, nil)
+	if err != nil {
+		return fail("no answer to the upgrade request: "+err.Error(), nil)
+	}
+	if resp.StatusCode != 101 || resp.Header.Get("X-Up") != "tunnel" || !strings.EqualFold(resp.Header.Get("Upgrade"), "SPDY/3.1") {
+		return fail(fmt.Sprintf("upgrade answered %d %v", resp.StatusCode, resp.Header), nil)
+	}
+	fmt.Fprintf(conn, "hello %s\n", id)
+	line, err := br.ReadString('\n')
+	if err != nil || line != "echo:hello "+id+"\n" {
+		return fail(fmt.Sprintf("tunnel echo: %q %v", line, err), nil)
+	}
+	fmt.Fprintf(conn, "bye\n")
+	br.ReadString('\n')
+	seen := w.takeSeen(id)
+	if len(seen) != 1 {
+		return fail(fmt.Sprintf("the upgrade request reached an upstream %d times", len(seen)), nil)
+	}
+	s := seen[0]
+	if s.Method != "GET" || s.RequestURI != target || s.Host != clOK || s.Header.Get("X-Stream-Protocol-Version") != "v4.channel.k8s.io" ||
+		s.Header.Get("X-Forwarded-For") != "1.2.3.4, 127.0.0.1" || !strings.EqualFold(s.Header.Get("Upgrade"), "SPDY/3.1") || s.Header.Get("Authorization") == "Bearer "+tokenAlice {
+		return fail(fmt.Sprintf("upgrade request changed on the way: %s %q Host=%s %v", s.Method, s.RequestURI, s.Host, s.Header), nil)
+	}
+	return true
+}
+
+// ------------------------------------------------------------------------------------------------------------
+
+func runAny(c *rig.Ctx, w *world, raw json.RawMessage, record bool) bool {
+	var k struct {
+		Kind   string `json:"kind"`
+		Target string `json:"target"`
+	}
+	json.Unmarshal(raw, &k)
+	switch k.Kind {
+	case "url":
+		return runURL(c, rig.UnHex(k.Target), record)
+	}
+	var cs Case
+	if err := json.Unmarshal(raw, &cs); err != nil {
+		fmt.Fprintln(os.Stderr, "bad case:", err)
+		os.Exit(2)
+	}
+	switch cs.Kind {
+	case "forward":
+		return runForward(c, w, cs, record)
+	case "term":
+		return runTerm(c, w, cs, record)
+	case "upgrade":
+		return runUpgrade(c, w, cs, record)
+	}
+	fmt.Fprintln(os.Stderr, "unknown case kind", cs.Kind)
+	os.Exit(2)
+	return false
 }
 
 func main() {
@@ -66,6 +790,129 @@ func main() {
 			explore(w)
 			return
 		}
-		_ = json.Marshal
+		c.SetRule("url: one request target (path from 43 segment kinds incl. %2F %2f %25 %20 %ff%fe %41 ; + // . .. and raw bytes RFC 3986 forbids; query of 0-5 pairs from 17 keys x 20 values incl. duplicates, empty, valueless, malformed escapes, ';'; every 4th target is raw random bytes) through the real net/url + normalizeLocation + director. " +
+			"forward: one raw HTTP/1.1 round trip through the real handler chain to a scripted upstream: method (11), such a target, 0-6 header lines from 43 (hop-by-hop, Connection-listed, duplicates, casings, X-Forwarded-For, Te, Upgrade, impersonation), body none/0 B..2 MiB plain or chunked, upstream status 200-599, 0-5 of 29 response headers, body 0 B..2 MiB with Content-Length / chunked / close-delimited. " +
+			"term: one of 17 rows of the decision table on such a request. distinct = distinct canonical case; non-trivial = (url) the target has an escape, a query or a special byte; (forward) the target is not plain, or it has a query, special headers, a body, or the upstream sends special headers or a body; (term) always")
+		c.SetExtra("volatile_headers_canonicalised", volatileNotes)
+		c.SetExtra("never_generated", []string{"request headers Pragma, Expect, Content-Length/Transfer-Encoding other than the body writer's own, a second Host", "a Connection header naming Accept-Encoding, User-Agent, Content-Length, Authorization or the correlation header", "response header Trailer and trailers, Content-Encoding unless the client sent Accept-Encoding (net/http's transport would decode it)", "1xx upstream statuses other than the 101 of the upgrade case", "CONNECT, OPTIONS *, absolute-form targets, control bytes and spaces in the target (net/http answers 400 before any handler)"})
+		if c.Replay != "" {
+			var raw json.RawMessage
+			if err := c.LoadReplay(&raw); err != nil {
+				fmt.Fprintln(os.Stderr, err)
+				os.Exit(2)
+			}
+			c.Case(string(raw), true, "replay", func() interface{} { return raw })
+			runAny(c, w, raw, true)
+			return
+		}
+		files, _ := filepath.Glob(filepath.Join(os.Getenv("VERIF_DIR"), "harness", "corpus", "C04", "*.json"))
+		sort.Strings(files)
+		for _, f := range files {
+			b, _ := os.ReadFile(f)
+			var env struct{ Case json.RawMessage }
+			if json.Unmarshal(b, &env) != nil || env.Case == nil {
+				continue
+			}
+			c.Case(string(env.Case), true, "corpus", nil)
+			c.Trace()
+			runAny(c, w, env.Case, true)
+		}
+		r := c.Rng
+		// 1. pure URL stream
+		nURL := c.Budget(20000, 400000)
+		for i := 0; i < nURL && c.NFailures() < 8; i++ {
+			raw := i%4 == 3
+			t := genTarget(r, raw)
+			cl := "url:structured"
+			if raw {
+				cl = "url:raw"
+			}
+			if !validTargetBytes(t) {
+				cl += ":refused-bytes"
+			}
+			c.Case("url:"+t, strings.ContainsAny(t, "%?;+\"") || strings.Contains(t, "//"), cl, func() interface{} { return "url " + strconv.Quote(t) })
+			if !runURL(c, t, false) {
+				if seenClass() {
+					c.Count("repeat:" + lastClass)
+					continue
+				}
+				// shrink: drop bytes
+				bs := rig.ShrinkList([]byte(t[1:]), func(l []byte) bool { return !runURL(c, "/"+string(l), false) })
+				runURL(c, "/"+string(bs), true)
+			}
+		}
+		// 2. forward stream (end to end)
+		nFwd := c.Budget(1800, 50000)
+		for i := 0; i < nFwd && c.NFailures() < 8; i++ {
+			cs, cl := genForward(r)
+			c.Case(rig.Canon(cs), cl.nontrivial, coarse(cl.bucket), func() interface{} { return describe(cs) })
+			for _, dim := range strings.Split(cl.bucket, ":")[1:] {
+				if !strings.HasPrefix(dim, "path=") && !strings.HasPrefix(dim, "h=") {
+					c.Count("fwd." + dim)
+				}
+			}
+			c.Trace()
+			if !runForward(c, w, cs, false) {
+				if seenClass() {
+					c.Count("repeat:" + lastClass)
+					continue
+				}
+				min := shrinkCase(cs, func(x Case) bool { return !runForward(c, w, x, false) })
+				if !runForward(c, w, min, true) {
+					continue
+				}
+				runForward(c, w, cs, true) // the shrunk case stopped failing: record the original
+			}
+		}
+		// 3. terminated answers
+		nTerm := c.Budget(204, 3400)
+		for i := 0; i < nTerm && c.NFailures() < 8; i++ {
+			cs, _ := genForward(r)
+			cs.Kind = "term"
+			cs.Row = termRows[i%len(termRows)]
+			if cs.Req.BodyLen > 65536 {
+				cs.Req.BodyLen = 65536 // net/http drains at most 256 KiB of an unread body before it answers on a kept connection
+			}
+			if cs.Row == "bucket" && i >= 3*len(termRows) && !c.Thorough() {
+				cs.Row = "unknown-host" // the bucket row waits for real time: three per quick run
+			}
+			c.Case(rig.Canon(cs), true, "term:"+cs.Row, func() interface{} { return "term " + describe(cs) })
+			c.Trace()
+			if !runTerm(c, w, cs, false) {
+				if seenClass() {
+					c.Count("repeat:" + lastClass)
+					continue
+				}
+				min := shrinkCase(cs, func(x Case) bool { return !runTerm(c, w, x, false) })
+				if !runTerm(c, w, min, true) {
+					continue
+				}
+				runTerm(c, w, cs, true)
+			}
+		}
+		// 4. one upgrade round trip (partial)
+		if c.NFailures() < 8 {
+			up := Case{Kind: "upgrade", Req: ReqSpec{Method: rig.Hex("GET"), Target: rig.Hex("/api/v1/namespaces/x/pods/p/exec?command=ls&container=a%2Fb"), Host: rig.Hex(clOK), Token: tokenAlice}}
+			c.Case(rig.Canon(up), true, "upgrade", func() interface{} { return "upgrade " + describe(up) })
+			c.Trace()
+			runUpgrade(c, w, up, true)
+			c.Note("upgrade (SPDY/WebSocket) tunnels: one exercised round trip, nothing proved (partial)")
+		}
+		w.mu.Lock()
+		strays := w.strays
+		w.mu.Unlock()
+		c.SetExtra("upstream_requests_without_a_case", strays)
 	})
+}
+
+// coarse keeps the histogram readable: path / header / body classes only.
+func coarse(b string) string {
+	parts := strings.Split(b, ":")
+	keep := []string{}
+	for _, p := range parts {
+		if strings.HasPrefix(p, "fwd") || strings.HasPrefix(p, "path=") || strings.HasPrefix(p, "h=") {
+			keep = append(keep, p)
+		}
+	}
+	return strings.Join(keep, ":")
 }
